@@ -159,6 +159,46 @@ pub fn run(name: &str) -> Option<bool> {
             doc.lines()
                 .any(|l| l.starts_with(".SS") && l.to_lowercase().contains("\\fz"))
         }
+        // C14: typing the attached value of a hidden argument (`-n=<TAB>`) offers unrelated names
+        "completion_value_of_hidden_argument" => {
+            let o = OptSpec::plain(Spec::Seq(vec![
+                Spec::wrap(W::Hide, 3, arg(1, Names::short('n'), Ty::Str)),
+                item(2, Names::long("level"), Leaf::Switch),
+            ]));
+            let p = build_options(&o);
+            let (out, _, _) = run_full(
+                &p,
+                &bytes(&["-n="]),
+                &RunOpts {
+                    comp: Some(0),
+                    ..RunOpts::default()
+                },
+            );
+            matches!(out, Outcome::Completion(t) if t.contains("--level"))
+        }
+        // C14: a command name is not offered when the level also accepts a positional there
+        "completion_command_next_to_positional" => {
+            let inner = OptSpec::plain(Spec::Seq(vec![item(3, Names::long("inner"), Leaf::Switch)]));
+            let cmd = Spec::Cmd(Box::new(CmdSpec {
+                id: 2,
+                names: vec!["remove".to_string()],
+                shorts: vec![],
+                help: None,
+                adjacent: false,
+                opts: inner,
+            }));
+            let o = OptSpec::plain(Spec::Seq(vec![Spec::Alt(vec![cmd, pos(4, Ty::Str)])]));
+            let p = build_options(&o);
+            let (out, _, _) = run_full(
+                &p,
+                &bytes(&["re"]),
+                &RunOpts {
+                    comp: Some(0),
+                    ..RunOpts::default()
+                },
+            );
+            matches!(out, Outcome::Completion(t) if !t.contains("remove"))
+        }
         _ => return None,
     })
 }
